@@ -159,6 +159,15 @@ def h_seq(params, env=None):
         PATHS = params.get("paths") or globals()["PATHS"]
         OIDS = params.get("oids") or globals()["OIDS"]
         NO = len(OIDS) - 1
+        # a concrete, already populated cache (three levels deep, every node with its own id) the symbolic calls start from
+        for bop, bp, boid in params.get("base") or []:
+            (cache.mkdir if bop == "mkdir" else cache.create)(bp, boid)
+            model.insert(model.key(bp), boid, bop == "mkdir")
+            calls.append((bop, bp, boid, "base"))
+        if params.get("base"):
+            why = structural(cache, prov) or functional(cache, model, prov)
+            if why:
+                return {"ok": False, "info": {"why": why, "kind": "model", "calls": calls}}
         for k in range(params["K"]):
             op = OPS[e.choose("op", len(OPS))]
             rejected = None
@@ -336,6 +345,12 @@ def jobs(tier):
         if not q:
             out.append({"harness": "seq", "params": {"case_sensitive": cs, "K": 3, "paths": ["/a", "/A", "/a/a", "/b"], "oids": ["o1", "o2", None]},
                         "label": "cache/%s/3-calls/4-paths-2-ids" % ("cs" if cs else "ci")})
+    # from a populated three-level tree: subtree operations must carry / forget *every* level (seeds C19-E/F)
+    base = [["mkdir", "/a", "x1"], ["mkdir", "/a/b", "x2"], ["create", "/a/b/a", "x3"], ["mkdir", "/b", "x4"], ["create", "/b/a", "x5"]]
+    for cs in (True, False):
+        out.append({"harness": "seq", "params": {"case_sensitive": cs, "K": 1 if q else 2, "base": base, "paths": ["/a", "/b", "/A", "/a/b", "/b/a", "/a/b/a", "/c"],
+                                                 "oids": ["o1", "x1", "x3", None]},
+                    "label": "cache/%s/base-3-levels/%d-call%s" % ("cs" if cs else "ci", 1 if q else 2, "" if q else "s")})
     out.append({"harness": "seq~shallow-delete", "params": {"case_sensitive": True, "K": 2}, "label": "cache~shallow-delete", "role": "sens"})
     return out
 
@@ -345,7 +360,7 @@ def meta(tier):
         "explanation": "M2: every sequence of 2 (thorough 3) HierarchicalCache calls from {create, mkdir, rename, delete by path, delete by id, set_oid, update} over 6 paths of depth <= 2 "
                        "(with a case variant) and 3 ids + None is enumerated by the solver on the real class; after every call the tree is walked for cycles, parent/child consistency, "
                        "exact id index, id uniqueness, id<->path inverse, and compared with a dictionary model through get_oid/get_type/listdir/walk.",
-        "bounds": {"calls": "2 (3)", "paths": PATHS, "ids": OIDS, "case modes": "sensitive, insensitive"},
+        "bounds": {"base tree": "also 1 (2) calls from a populated tree /a(x1)/b(x2)/a(x3), /b(x4)/a(x5)", "calls": "2 (3)", "paths": PATHS, "ids": OIDS, "case modes": "sensitive, insensitive"},
         "symbolic": ["operation, path, id, type of every call"],
         "outside": ["longer sequences", "renames into the node's own subtree (no provider performs them)", "giving a node the id that one of its own ancestors holds (no provider reports that; found by the 3-call tier: the real code then leaves the id index pointing at a detached node or raises TypeError)", "metadata templates"],
         "stubs": ["MockProvider as the path-convention provider"],
